@@ -38,6 +38,10 @@ func init() {
 		}, &slip.CLPkg)
 }
 
+// maxIntegerBits is the limit for a shift count and for the size and position
+// of a byte specifier. Larger integers are not supported.
+const maxIntegerBits = 1<<31 - 1
+
 // Ash represents the ash function.
 type Ash struct {
 	slip.Function
@@ -69,6 +73,7 @@ func (f *Ash) Call(s *slip.Scope, args slip.List, depth int) (result slip.Object
 		case sh < 64 && (ti<<sh)>>sh == ti:
 			result = ti << sh
 		default: // overflow, promote to a bignum
+			f.checkShift(s, sh, depth)
 			var z big.Int
 			result = (*slip.Bignum)(z.Lsh(big.NewInt(int64(ti)), uint(sh)))
 		}
@@ -84,6 +89,9 @@ func (f *Ash) Call(s *slip.Scope, args slip.List, depth int) (result slip.Object
 			// An arithmetic shift, it keeps the sign and rounds down.
 			bi.Rsh((*big.Int)(ti), uint(-sh))
 		} else {
+			if (*big.Int)(ti).Sign() != 0 {
+				f.checkShift(s, sh, depth)
+			}
 			bi.Lsh((*big.Int)(ti), uint(sh))
 		}
 		result = (*slip.Bignum)(&bi)
@@ -91,4 +99,10 @@ func (f *Ash) Call(s *slip.Scope, args slip.List, depth int) (result slip.Object
 		slip.TypePanic(s, depth, "integer", ti, "integer")
 	}
 	return
+}
+
+func (f *Ash) checkShift(s *slip.Scope, shift, depth int) {
+	if maxIntegerBits < shift {
+		slip.ErrorPanic(s, depth, "a left shift by %d would make an integer of more than %d bits", shift, maxIntegerBits)
+	}
 }
